@@ -48,15 +48,38 @@ REG_UNWIND = {"m_mem_unref": 3, fl("find_min_subtree", "bst.c") + ".0": 4, fl("b
 OPS = {0: "reg", 1: "dereg", 2: "stop", 3: "pause", 4: "resume", 5: "oneshot", 6: "count"}
 SHAPES = {(0, 0): "empty", (1, 0): "one", (2, 0): "two-right", (2, 1): "two-left"}
 
+# identifying values per kind: (k0, k1 greater, k1 smaller, {class: operation key}); "far" = the difference to k0
+# does not fit an int, "inv" = violates the documented precondition.  Paths: first char * 256 + second char.
+P = lambda a, b=None: ord(a) * 256 + (ord(b) if b else 0)
+KEYS = {
+    "fd": dict(k0=5, hi=9, lo=3, ops={"below": 1, "mid-r": 7, "mid-l": 4, "above": 20, "inv": "(-1)", "max": 2147483647}),
+    "tmr": dict(k0=1000000000, hi=2000000000, lo=500, ops={"below": 1, "mid-r": 1500000000, "mid-l": 70000, "above": "60000000000ull",
+                "inv": 0, "far32": "(1000000000ull+(1ull<<32))", "far31": "(1000000000ull+(1ull<<31))", "max": "18446744073709551615ull"}),
+    "sgn": dict(k0=10, hi=15, lo=2, ops={"below": 1, "mid-r": 12, "mid-l": 9, "above": 64, "inv": 0, "far31": "(10u+(1u<<31))",
+                "max": "4294967295u"}),
+    "path": dict(k0=P("m", "m"), hi=P("t"), lo=P("a", "z"), ops={"below": P("A"), "mid-r": P("m", "n"), "mid-l": P("b"), "above": P("z", "z"),
+                 "inv": 0, "prefix": P("m"), "hibit": "(200*256+201)"}),
+    "pid": dict(k0=100, hi=4000, lo=7, ops={"below": 1, "mid-r": 101, "mid-l": 99, "above": 4194304, "inv": 0, "neg": "(-5)", "max": 2147483647}),
+    "task": dict(k0=0, hi=7, lo="(-7)", ops={"below": "(-100)", "mid-r": 3, "mid-l": "(-1)", "above": 100, "far31": "2147483647",
+                 "min": "(-2147483647-1)"}),
+    "thresh": dict(k0=5000, hi=60000, lo=10, ops={"below": 1, "mid-r": 5001, "mid-l": 4999, "above": "(1ull<<39)", "inv": 0,
+                   "far32": "(5000ull+(1ull<<32))"}),
+}
 
-def reg_job(kind, npre, shape, op, thr=None, timeout=600):
+
+def reg_job(kind, npre, shape, op, cls=None, k2=None, extra=None, w=None, timeout=600):
     nm, cmpf = KINDS[kind]
+    ks = KEYS[nm]
     d = {"KIND": kind, "NPRE": npre, "SHAPE": shape, "OP": op, "VF_MANAGE_SRCS": fl("manage_srcs", "mod.c"),
-         "VF_CREATE_SRC": fl("create_src", "src.c")}
+         "VF_CREATE_SRC": fl("create_src", "src.c"), "K0": ks["k0"], "K1": ks["hi"] if shape == 0 else ks["lo"]}
     name = "C09.reg.%s.%s.%s" % (nm, SHAPES[(npre, shape)], OPS[op])
-    if thr is not None:
-        d["VF_THR"] = thr
-        name += ".%s" % ("ms", "freq")[thr]
+    if cls is not None:
+        d["K2"] = k2
+        name += "." + cls
+    if w is not None:
+        d["W"] = w
+        name += ".w%d" % w
+    d.update(extra or {})
     return Job(name, "l1/c09_reg.c", sources=REG_SRC, extra_harness=["common/vf_defs.c"],
                remove=["m_ctx", "fetch_ms"], fsa=1024, layer="l1", backend="cadical", defines=d,
                unwind=10, unwindset=REG_UNWIND, common_fp=False,
@@ -64,31 +87,75 @@ def reg_job(kind, npre, shape, op, thr=None, timeout=600):
                kf=["C09_eexist_owner"] if (kind == 1 and op == 0 and npre > 0) else [],
                native={"sources": ["Lib/core/main.c", "Lib/utils/mem.c", "Lib/mem/mem.c", "Lib/structs/stack.c",
                                    "Lib/structs/queue.c", "Lib/structs/map.c"]},
-               symbolic=["pre-state keys (inside the order the tree shape needs) and the operation's key at full "
-                         "width incl. invalid values / NULL", "module state (4)", "flag words of every source and of "
-                         "the call", "token count", "private descriptor numbers", "which source fires / is internal"],
-               bounds="pre-state: %s (%d sources of the kind), one operation: %s" % (SHAPES[(npre, shape)], npre, OPS[op]),
+               symbolic=["module state (IDLE/RUNNING/PAUSED/STOPPED)", "flag words of every stored source and of the "
+                         "call (any priority combination, AUTOFREE, ONESHOT, FD_AUTOCLOSE, TMR_ABSOLUTE)", "token count",
+                         "secondary key fields (clock id, event "
+                         "masks, task function)", "private descriptor numbers", "which sources are library-internal"],
+               bounds="pre-state %s (%d sources), one %s, key class %s (identifying values are per-job constants)"
+                      % (SHAPES[(npre, shape)], npre, OPS[op], cls),
                timeout=timeout, mem_gb=12)
+
+
+def op_keys(nm, npre, shape):
+    """(class, K2, extra defines) for register / deregister against the given pre-state"""
+    ks = KEYS[nm]
+    out = []
+    if npre >= 1:
+        out.append(("eq0", ks["k0"], None))
+    if npre == 2:
+        out.append(("eq1", ks["hi"] if shape == 0 else ks["lo"], None))
+    for c, v in ks["ops"].items():
+        if (c == "mid-r" and (npre, shape) == (2, 1)) or (c == "mid-l" and (npre, shape) != (2, 1)):
+            continue
+        out.append((c, v, None))
+    if nm != "fd":
+        out.append(("null", ks["ops"]["below"], {"BAD": 1}))
+    if nm == "path":
+        out.append(("nullpath", ks["ops"]["below"], {"BAD": 2}))
+        out.append(("noevents", ks["ops"]["below"], {"BAD": 3}))
+    if nm == "task":
+        out.append(("nullfn", ks["ops"]["below"], {"BAD": 2}))
+    if nm == "thresh":      # the pair identifies: fractions, and same sum but different pair
+        out.append(("frac", ks["k0"], {"F2": 1}))
+        out.append(("freq-only", 0, {"F2": 5}))
+        out.append(("same-sum", 0, {"F2": 2 * ks["k0"]}))
+    return out
+
+
+QUICK_CLS = ("eq0", "eq1", "mid-r", "mid-l", "far32", "far31", "frac", "same-sum", "prefix")
 
 
 def reg_jobs(tier):
     js = []
     for kind, (nm, _) in KINDS.items():
-        thrs = [0, 1] if nm == "thresh" else [None]
-        for thr in thrs:
-            for (npre, shape) in SHAPES:
-                for op in OPS:
-                    if npre == 0 and op not in (0, 1, 6):
+        for (npre, shape) in SHAPES:
+            two = npre == 2
+            for op in OPS:
+                if op in (0, 1):
+                    for cls, k2, extra in op_keys(nm, npre, shape):
+                        if tier == "quick":
+                            if npre == 2 and cls not in QUICK_CLS:
+                                continue
+                            if npre == 1 and cls not in ("inv", "above", "null", "nullpath", "nullfn"):
+                                continue
+                            if npre == 0 and not (op == 0 and cls == "below"):
+                                continue
+                            if (npre, shape) == (2, 1) and cls not in ("eq1", "mid-l"):
+                                continue
+                        js.append(reg_job(kind, npre, shape, op, cls, k2, extra))
+                elif op == 5:
+                    if npre == 0:
                         continue
-                    if tier == "quick":
-                        # quick: the two-source shapes for every operation, smaller pre-states for register / deregister
-                        if npre == 1 and op not in (0, 1):
+                    for w in range(npre):
+                        if tier == "quick" and not (two and (shape == 0 or w == 1)):
                             continue
-                        if npre == 0 and op != 0:
-                            continue
-                        if (npre, shape) == (2, 1) and op in (2, 3, 4, 6):
-                            continue
-                    js.append(reg_job(kind, npre, shape, op, thr))
+                        js.append(reg_job(kind, npre, shape, op, w=w))
+                else:
+                    if npre == 0 and op != 6:
+                        continue
+                    if tier == "quick" and (npre, shape) != (2, 0):
+                        continue
+                    js.append(reg_job(kind, npre, shape, op))
     return js
 
 
